@@ -498,6 +498,8 @@ pub struct Driver {
     /// what the server is given (the same object unless a wrapper is in place)
     pub served: Arc<dyn Storage>,
     pub dir: Option<TempDir>,
+    /// where the SQLite database lives when the directory is owned by somebody else
+    pub db_path: Option<PathBuf>,
     server: Option<Server>,
     http: Option<HttpHandle>,
     /// how body bytes are cut into chunks for Http (None = one chunk)
@@ -537,6 +539,7 @@ impl Driver {
             storage: stores.probe,
             served: stores.served,
             dir,
+            db_path: None,
             server: None,
             http: None,
             chunker: None,
@@ -567,7 +570,7 @@ impl Driver {
     }
 
     pub fn db_dir(&self) -> Option<&Path> {
-        self.dir.as_ref().map(|d| d.path())
+        self.db_path.as_deref().or(self.dir.as_ref().map(|d| d.path()))
     }
 
     /// Drop the storage object and everything built on it, then open again (persistent backend:
